@@ -20,6 +20,8 @@ def build(t, typing='int', scope=None):
     k = t['k']
     rec = lambda x: build(x, typing, scope)  # noqa: E731
     if k == 'int':
+        if t.get('raw'):
+            return int(t['v'])          # a bare python constant (the -1 of a flattened negation)
         return sym.IntLiteral(t['v']) if t['v'] >= 0 else sym.Product((-1, sym.IntLiteral(-t['v'])))
     if k == 'rawint':       # an IntLiteral holding the (possibly negative) value itself
         return sym.IntLiteral(t['v'])
@@ -345,7 +347,10 @@ def random_tree(rng, depth, leaves, ops=('sum', 'prod', 'quot', 'pow', 'neg', 'p
     sub = lambda: random_tree(rng, depth - 1, leaves, ops)  # noqa: E731
     if op in ('sum', 'prod'):
         n = 3 if rng.random() < 0.2 else 2
-        return {'k': op, 'c': [sub() for _ in range(n)]}
+        cs = [sub() for _ in range(n)]
+        if op == 'prod' and rng.random() < 0.15:
+            cs = [{'k': 'int', 'v': -1, 'raw': True}] + cs     # flattened negation: Product((-1, x, y, ..))
+        return {'k': op, 'c': cs}
     if op == 'quot':
         return {'k': 'quot', 'c': [sub(), sub()]}
     if op == 'pow':
